@@ -238,8 +238,8 @@ class Engine:
     """One instance per explored path."""
 
     FEAS_TIMEOUT_MS = 700
-    OBL_TIMEOUT_MS = 40000
-    CVC5_TIMEOUT_S = 20
+    OBL_TIMEOUT_MS = 120000
+    CVC5_TIMEOUT_S = 8
     FIRST_TIMEOUT_MS = 4000
 
     def __init__(self, decisions, stats, inputs_decl=None):
@@ -378,7 +378,7 @@ class Engine:
                 return k
         return n - 1
 
-    def check(self, c, name, info=None):
+    def check(self, c, name, info=None, independent=False):
         """Proof obligation: pc => c.  Result recorded; afterwards c is assumed (so that one failure
         does not cascade into every later obligation of the path)."""
         self.stats["checks"] = self.stats.get("checks", 0) + 1
@@ -429,6 +429,8 @@ class Engine:
         self.results.append((name, status, model_inputs, backend if info is None else f"{backend};{info}"))
         if status == "proved" or status == "unknown":
             self.assume(c)
+        elif independent and status == "refuted":
+            pass
         else:
             # continue on the sub-path where the obligation holds, if there is one (else unconstrained: later
             # obligations of the path are still evaluated - they may be tagged for other properties)
